@@ -36,9 +36,10 @@ def make_info(rng, idx, paths, marker=None, malformed=False, agree_starts=False,
             continue
         if rng.random() < fn_only:
             # a record that names functions only (FN / FNDA, no DA, no BRDA): legal lcov
-            for f in rng.sample(["f", "g", "h", "café", "2,3#origin"], rng.randrange(1, 3)):
+            for f in rng.sample(["f", "g", "h", "café", "2,3#origin", "10,20,scale"], rng.randrange(1, 3)):
                 out += "FN:%d,%s\n" % ({"f": 1, "g": 5, "h": 0}.get(f, 3) if agree_starts else rng.choice([0, 1, 5, 9]), f)
-                out += "FNDA:%d,%s\n" % (rng.choice([0, 1]), f)
+                if rng.random() < 0.8:              # (a function may be declared without any FNDA record)
+                    out += "FNDA:%d,%s\n" % (rng.choice([0, 1]), f)
             out += "end_of_record\n"
             continue
         fns = rng.sample(["f", "g", "h", "café"], rng.randrange(0, 3))
